@@ -61,7 +61,7 @@ ROGUE_SCENS = [
     dict(auth="psk", suite="TLS_PSK_WITH_AES_128_GCM_SHA256", cidC=-1, cidS=-1),
     dict(auth="rsa", suite="TLS_ECDHE_RSA_WITH_AES_256_GCM_SHA384", cidC=-1, cidS=-1),
 ]
-ROGUE_SECRET = {"E": "empty", "SB": "SB", "SA": "SA"}
+ROGUE_SECRET = {"E": "empty", "SB": "SB", "SA": "SA", "ST": "ST"}
 
 
 def dedupe_prefixes(scripts):
@@ -137,25 +137,36 @@ def rogue_cases(scripts):
     cases = []
     for i, s in enumerate(scripts):
         steps = s["steps"]
-        if not steps or steps[0]["act"] != "StartRogue":
+        if not steps or steps[0]["act"] not in ("StartRogue", "StartRogueClient"):
             continue
         rid, rsec = steps[0]["arg"]
+        client_mode = steps[0]["act"] == "StartRogueClient"
         script = []
         expect = "running"
         for x in steps[1:]:
-            if x["act"] == "RogueHello":
-                script.append("SH+FIN" if x["arg"][0] == "fin" else "SH")
-            elif x["act"] == "Timeout" and x["arg"][0] == "c":
-                script.append("T")
-            elif x["act"] == "Abort":
+            if x["act"] == "Abort":
                 break
-            expect = {"est": "est", "closed": "est", "failed": "failed"}.get(x["post"]["c"][0], "running")
+            if client_mode:
+                if x["act"] == "Deliver" and x["arg"][0] == "CH":
+                    script.append("CH")
+                elif x["act"] == "Deliver" and x["arg"][0] == "F5b":
+                    script.append("FIN")
+                elif x["act"] == "Timeout" and x["arg"][0] == "s":
+                    script.append("T")
+                expect = {"est": "est", "closed": "est", "failed": "failed"}.get(x["post"]["s"][0], "running")
+            else:
+                if x["act"] == "RogueHello":
+                    script.append("SH+FIN" if x["arg"][0] == "fin" else "SH")
+                elif x["act"] == "Timeout" and x["arg"][0] == "c":
+                    script.append("T")
+                expect = {"est": "est", "closed": "est", "failed": "failed"}.get(x["post"]["c"][0], "running")
         if not script:
             continue
-        sc = dict(ROGUE_SCENS[i % len(ROGUE_SCENS)], ver="12")
-        cases.append({"name": "rogue/%s/%s/%s/%s/%s" % (s["content"], rid, rsec, "-".join(script), sc["suite"][4:]),
-                      "scen": sc, "content": s["content"], "sid": "new" if rid == "R" else "A", "secret": ROGUE_SECRET[rsec],
-                      "script": script, "expect": expect})
+        pool = [c for c in ROGUE_SCENS if c["cidC"] < 0] if client_mode else ROGUE_SCENS
+        sc = dict(pool[i % len(pool)], ver="12", helloVerify=(client_mode and i % 3 == 0))
+        cases.append({"name": "rogue-%s/%s/%s/%s/%s/%s" % ("client" if client_mode else "server", s["content"], rid, rsec, "-".join(script), sc["suite"][4:]),
+                      "scen": sc, "content": s["content"], "sid": ("R" if client_mode else "new") if rid == "R" else "A",
+                      "secret": ROGUE_SECRET[rsec], "script": script, "expect": expect, "mode": "client" if client_mode else ""})
     return cases
 
 
@@ -196,7 +207,7 @@ def run(chk):
     scripts = dedupe_prefixes(scripts)
     rng = random.Random(chk.seed)
     rng.shuffle(scripts)
-    cap = 9000 if chk.quick else 60000
+    cap = 6000 if chk.quick else 60000
     if len(scripts) > cap:
         # keep every script that contains a fault or a second connection start late in the history, sample the rest
         scripts = scripts[:cap]
@@ -218,7 +229,7 @@ def run(chk):
             raise vlib.Inconclusive("rogue-peer case %s could not run: %s" % (c["name"], r["lab"]))
         controls += 1 if r.get("control") else 0
         for v in (r.get("violations") or [])[:1]:
-            chk.violation({"kind": "resumed-without-shared-secret", "what": v, "content": c["content"], "rogue_case": c,
+            chk.violation({"kind": "resumed-without-shared-secret", "side": "server" if c.get("mode") == "client" else "client", "what": v, "content": c["content"], "rogue_case": c,
                            "rogue_reads_application_data": r.get("appData"), "client_sent": r.get("clientSent")})
         if r.get("diverge") and not r.get("violations"):
             rdiv += 1
